@@ -175,6 +175,8 @@ impl IterationStateLock {
         if *lock % 2 == 0 {
             *lock += 1;
         }
+        #[cfg(feature = "verif")]
+        self.verif_event("lock", *lock, 0);
     }
 
     /// Unlock a locked state.
@@ -184,7 +186,19 @@ impl IterationStateLock {
         let mut lock = self.generation.lock().unwrap();
         assert_eq!(*lock % 2, 1, "cannot unlock a non-locked lock");
         *lock += 1;
+        #[cfg(feature = "verif")]
+        self.verif_event("unlock", *lock, 0);
         self.cond_var.notify_all();
+    }
+
+    /// Emit a verification event; called while the generation mutex is held.
+    #[cfg(feature = "verif")]
+    fn verif_event(&self, what: &str, gen: usize, want: usize) {
+        crate::verif::emit(|| {
+            let at = crate::worker::replica_coord().map(crate::verif::coord_str);
+            serde_json::json!({"ev": what, "lock": self as *const _ as usize, "gen": gen,
+                "want": want, "at": at})
+        });
     }
 
     /// Block the thread if the current generation of the lock is lower that the requested one.
@@ -193,5 +207,7 @@ impl IterationStateLock {
             .cond_var
             .wait_while(self.generation.lock().unwrap(), |r| *r < generation)
             .unwrap();
+        #[cfg(feature = "verif")]
+        self.verif_event("wait_ret", *_gen, generation);
     }
 }
